@@ -51,8 +51,8 @@ def one_fault(case, k):
         rep['error'] = '%s: %s' % (type(e).__name__, str(e)[:160])
         last = getattr(e, 'last_sql_statement', None)
         rep['last_sql_statement'] = repr(last)[:200]
-        if type(e).__name__ != 'EvolutionExecutionError' and 'Error' in type(e).__name__ and last is None and \
-                not is_bookkeeping(tr.failed_sql):
+        if 'Error' in type(e).__name__ and last is None and not is_bookkeeping(tr.failed_sql) and \
+                not is_foreign(tr.failed_sql or ''):
             problems.append(('payload', 'the error does not identify the failing statement'))
         elif last is not None and tr.failed_sql is not None and last[0].split()[:3] != tr.failed_sql.split()[:3]:
             problems.append(('payload', 'the reported statement %r is not the failing one %r' % (last[0][:60], tr.failed_sql[:60])))
@@ -270,6 +270,50 @@ def other_database_faults(ctx):
                 ctx.fail(None, 'other database: the retry ends in a different state than the uninterrupted run', rep)
 
 
+def two_app_creation_faults(ctx):
+    """a release in which TWO apps get new models (their tables are created in one batch), with a fault at each of the
+    creation statements: the reported error names the failing statement"""
+    def fld(name, t, **attrs):
+        return {'name': name, 'type': t, 'attrs': attrs, 'related': None}
+
+    def mdl(app, name):
+        return {'name': name, 'table': '%s_%s' % (app, name.lower()), 'unique_together': [], 'index_together': [],
+                'indexes': [], 'constraints': [], 'fields': [fld('id', 'AutoField', primary_key=True),
+                                                             fld('n', 'IntegerField', null=True, db_index=True)]}
+    spec0 = {'apps': [{'id': 'vapp', 'models': [mdl('vapp', 'Alpha')]}]}
+    spec1 = {'apps': [{'id': 'vapp', 'models': [mdl('vapp', 'Alpha'), mdl('vapp', 'Shelf')]},
+                      {'id': 'wapp', 'models': [mdl('wapp', 'Wal')]}]}
+    for k in range(4):
+        if ctx.time_left() < 25:
+            return
+        evorig.fresh_databases()
+        evorig.clear_evolutions()
+        evorig.install_models(spec0)
+        if evorig.run_evolver()[0] != 'ok':
+            return
+        evorig.install_models(spec1)
+        tr = evorig.Trace(fail_at=k)
+        r = evorig.run_evolver(trace=tr)
+        from django.db import connection
+        if connection.in_atomic_block:
+            dbrig.clear_stuck_transaction('default')
+            connection.ensure_connection()
+        if r[0] != 'error' or tr.failed_sql is None or is_bookkeeping(tr.failed_sql) or is_foreign(tr.failed_sql):
+            continue
+        e = r[1]
+        last = getattr(e, 'last_sql_statement', None)
+        rep = {'scenario': 'two apps get new models in one release, fault in the model creation', 'k': k,
+               'failed_sql': tr.failed_sql, 'error': '%s: %s' % (type(e).__name__, str(e)[:160]),
+               'last_sql_statement': repr(last)[:200]}
+        ctx.count('two_app_creation_faults')
+        ctx.case({'scenario': rep['scenario'], 'k': k, 'statement': tr.failed_sql[:60]}, nontrivial=True, sample_cap=2)
+        if last is None:
+            ctx.fail(None, 'fault at %r while the models of two apps are created: the error does not identify the failing '
+                     'statement' % tr.failed_sql[:50], rep)
+        elif last[0].split()[:3] != tr.failed_sql.split()[:3]:
+            ctx.fail(None, 'the reported statement %r is not the failing one %r' % (last[0][:60], tr.failed_sql[:60]), rep)
+
+
 def purge_fault_cases(ctx):
     """an upgrade that also purges an app that is no longer installed (two task classes in one run), with a fault at
     every statement of the purge: whatever the first class had done, no evolution may be recorded, the stored
@@ -462,6 +506,7 @@ def run(ctx):
                     ctx.fail(None, 'fault at write #%d of %d: %s' % (k, n, what), dict(rep, retry='same Evolver'))
     purge_fault_cases(ctx)
     other_database_faults(ctx)
+    two_app_creation_faults(ctx)
     batch_correspondence(ctx)
     if book_witness is not None:
         ctx.fail(F_BOOK, 'the version/evolution records are written outside the evolution\'s transaction: a failure '
